@@ -113,6 +113,12 @@ def render_off(j):
     return len(HTML_OPEN) + _SPAN_LEN * j + (j + 9) // 10 + len(HTML_BREAK) * ((j + 49) // 50)
 
 
+def render_block_end(j):
+    """one past the last character of block j, written with the same terms as the positions inside the block"""
+    from pyvc.speclib import ite
+    return render_off(j) + ite(j % 10 == 0, lambda: 1, lambda: 0) + ite(j % 50 == 0, lambda: len(HTML_BREAK), lambda: 0) + _SPAN_LEN
+
+
 def render_block_ok(R, j, s, pal):
     from pyvc.speclib import And, implies, ite
     o = render_off(j)
@@ -130,7 +136,9 @@ def render_ok(R, s, k, pal, closed):
     from pyvc.speclib import And, forall, length, as_seq
     R, s = as_seq(R), as_seq(s)
     n = render_off(k) + (len(HTML_CLOSE) if closed else 0)
-    return And(length(R) == n, _lit(R, 0, HTML_OPEN), forall(lambda j: render_block_ok(R, j, s, pal), 0, k),
+    body_end = render_off(k)
+    # every block ends inside the text written so far (stated per block, so that appending never needs a monotonicity argument)
+    return And(length(R) == n, _lit(R, 0, HTML_OPEN), forall(lambda j: And(render_block_end(j) <= body_end, render_block_ok(R, j, s, pal)), 0, k),
                (_lit(R, render_off(k), HTML_CLOSE) if closed else True))
 
 
@@ -139,7 +147,7 @@ SPEC.update(dict(render_ok=render_ok, pal_at=pal_at, render_off=render_off))
 CONTRACT[K + 'get_HTMLColorString'] = dict(
     self=mk_seq_render, raises=[], modifies=[], returns='str',
     ensures=['render_ok(result, self.seq, self.len, self.aminoAcidColorMap, True)'])
-LOOPS[K + 'get_HTMLColorString'] = {0: dict(index='k', types={'colorString': 'str'}, invariant=[
+LOOPS[K + 'get_HTMLColorString'] = {0: dict(index='k', types={'colorString': 'str'}, lemmas=['render_off_step(k)'], invariant=[
     'count == k - 1', 'render_ok(colorString, self.seq, k, self.aminoAcidColorMap, False)'])}
 
 assert all(c.isalpha() for n in HTML_COLOURS for c in n), 'a colour name with markup characters would break the colour-symbol abstraction'
